@@ -139,6 +139,17 @@ class SizeConstraintList(list[SizeConstraint]):
                 )
             except ConstraintObsoleteError:
                 self.remove(constraint)
+            except SizeConstraintExceededError:
+                # Only the rest of the violated region was consumed, not the whole violator: correct what
+                # the enclosing regions (visited before) were charged. Regions opened inside the violated
+                # region end with it.
+                consumed = max(constraint.size_max - constraint.size_already, 0)
+                index = self.index(constraint)
+                for outer in self[:index]:
+                    outer.size_already -= size - consumed
+                for inner in self[index + 1 :]:
+                    inner.is_obsolete = True
+                raise
 
     def assert_done(self):
         # if not all constraints are obsolete by now, this is a bug
